@@ -130,8 +130,73 @@ def worker(ctx):
         fh.write("proto lib\nconst N = 3\nenum Thing : uint3 { THING_A = 0 }\nmessage Mess { Thing t = 1 }\n")
     anchor = os.path.join(workdir, "fuzz.bitproto")
     open(anchor, "w").write("proto fuzz\n")
-    signal.signal(signal.SIGPROF, _alarm)  # CPU-time watchdog: independent of how loaded the machine is
+    outdir = os.path.join(workdir, "out")
+    os.makedirs(outdir, exist_ok=True)
 
+    class Executor:
+        """The real parser/renderers run in a child process; the watchdog lives here, outside (see props/c09_exec.py)."""
+
+        CPU_LIMIT = 20.0  # seconds of CPU the child may burn on ONE input (normal: 0.03 s)
+
+        def __init__(self):
+            self.p = None
+            self.start()
+
+        def start(self):
+            self.p = subprocess.Popen([env.PYTHON, "-m", "props.c09_exec", workdir], cwd=env.VERIF, env=env.child_env(),
+                                      stdin=subprocess.PIPE, stdout=subprocess.PIPE, stderr=subprocess.DEVNULL)
+            res.count("executor_processes_started")
+
+        def cpu(self):
+            try:
+                f = open(f"/proc/{self.p.pid}/stat").read().rsplit(")", 1)[1].split()
+                return (int(f[11]) + int(f[12])) / os.sysconf("SC_CLK_TCK")
+            except Exception:
+                return 0.0
+
+        def ask(self, text, render):
+            """Returns the reply dict, or None when the child burnt CPU_LIMIT on this input (it is killed and restarted)."""
+            import select
+            payload = (("R" if render else "P") + text).encode("utf-8", "surrogatepass")
+            c0 = self.cpu()
+            try:
+                self.p.stdin.write(b"%08x" % len(payload) + payload)
+                self.p.stdin.flush()
+            except BrokenPipeError:
+                self.start()
+                return {"status": "internal", "problems": [{"key": "parse-internal:process-died", "what": "executor process died", "traceback": ""}], "renders": 0, "renders_opt": 0}
+            waited = 0.0
+            while True:
+                r, _, _ = select.select([self.p.stdout], [], [], 2.0)
+                if r:
+                    line = self.p.stdout.readline()
+                    if not line:
+                        rc = self.p.poll()
+                        self.start()
+                        return {"status": "internal", "renders": 0, "renders_opt": 0,
+                                "problems": [{"key": "parse-internal:process-died", "what": f"executor process died (exit {rc}) on an input", "traceback": ""}]}
+                    return json.loads(line)
+                waited += 2.0
+                if self.cpu() - c0 > self.CPU_LIMIT:
+                    self.p.kill()
+                    self.p.wait()
+                    self.start()
+                    return None
+                if waited > 1800:  # starved machine: not a verdict
+                    self.p.kill()
+                    self.p.wait()
+                    self.start()
+                    res.inconclusive.append("executor made no progress for 30 min of wall-clock without using CPU")
+                    return {"status": "oserror", "problems": [], "renders": 0, "renders_opt": 0}
+
+        def close(self):
+            try:
+                self.p.stdin.close()
+                self.p.wait(timeout=10)
+            except Exception:
+                self.p.kill()
+
+    ex = Executor()
     seeds = []  # token lists of valid schemas
 
     def new_seed(k):
@@ -143,82 +208,35 @@ def worker(ctx):
             text = text.replace("\n", '\nimport "lib.bitproto"\n', 1)
         return TOKEN_RE.findall(text)
 
-    def run_one(text, origin):
-        """Returns the parsed proto (accepted) or None."""
+    def run_one(text, origin, render):
+        """Returns True when the input was accepted."""
         res.count("inputs")
         res.evaluations += 1
         res.count("inputs:" + origin)
-        for attempt in (1, 2):
-            t0 = time.time()
-            signal.setitimer(signal.ITIMER_PROF, 20.0)
-            try:
-                with sut_compiler.quiet_stderr():
-                    proto = parse_string(text, filepath=anchor)
-                res.count("accepted")
-                return proto
-            except errors.ParserError as e:
-                res.count("rejected")
-                res.observe("parser_error_classes", type(e).__name__)
-                return None
-            except OSError as e:
-                res.count("os_errors")
-                return None
-            except Timeout:
-                if attempt == 2:
-                    res.violation("hang", f"parse did not return within 20 s of CPU time twice for a {len(text)}-character input from {origin}", {"input": text[:4000], "origin": origin})
-                continue
-            except BaseException as e:
-                tb = traceback.format_exc()
-                res.violation("parse-internal:" + classify(e, tb), f"parse escaped with {type(e).__name__}: {str(e)[:200]} (origin {origin})",
-                              {"input": text[:4000], "origin": origin, "traceback": tb[-1500:]})
-                return None
-            finally:
-                signal.setitimer(signal.ITIMER_PROF, 0)
-                dt = time.time() - t0
-                if dt > ctx.res.counters.get("slowest_ms", 0) / 1000.0:
-                    ctx.res.counters["slowest_ms"] = int(dt * 1000)
-        return None
-
-    outdir = os.path.join(workdir, "out")
-    os.makedirs(outdir)
-
-    def render_all(proto, text, origin):
-        for lang in ("c", "go", "py"):
-            res.count("renders")
-            try:
-                with sut_compiler.quiet_stderr():
-                    render(proto, lang, outdir=outdir)
-            except errors.RendererError:
-                res.count("renderer_errors")
-            except BaseException as e:
-                tb = traceback.format_exc()
-                key = f"render-internal:{lang}:" + classify(e, tb)
-                res.violation(key, f"render {lang} of an accepted schema escaped with {type(e).__name__}: {str(e)[:200]}",
-                              {"input": text[:4000], "origin": origin, "traceback": tb[-1500:]})
-        # optimisation mode when the text is traditional
-        try:
-            with sut_compiler.quiet_stderr():
-                tp = parse_string(text, filepath=anchor, traditional_mode=True)
-        except Exception:
-            return
-        for lang in ("c", "go"):
-            res.count("renders")
-            res.count("renders_optimisation_mode")
-            try:
-                with sut_compiler.quiet_stderr():
-                    render(tp, lang, outdir=outdir, optimization_mode=True)
-            except errors.RendererError:
-                res.count("renderer_errors")
-            except BaseException as e:
-                tb = traceback.format_exc()
-                res.violation(f"render-internal:{lang}-O:" + classify(e, tb), f"render {lang} -O escaped with {type(e).__name__}: {str(e)[:200]}",
-                              {"input": text[:4000], "origin": origin, "traceback": tb[-1500:]})
+        t0 = time.time()
+        rep = ex.ask(text, render)
+        if rep is None:
+            rep = ex.ask(text, render)  # once more, alone in a fresh process, before a hang is reported
+            if rep is None:
+                res.violation("hang", f"parse/render did not return within {Executor.CPU_LIMIT:.0f} s of CPU time, twice, for a {len(text)}-character input from {origin}",
+                              {"input": text[:4000], "origin": origin})
+                return False
+        dt = time.time() - t0
+        if dt * 1000 > res.counters.get("slowest_ms", 0):
+            res.counters["slowest_ms"] = int(dt * 1000)
+        st = rep["status"]
+        res.count({"accepted": "accepted", "rejected": "rejected", "oserror": "os_errors"}.get(st, "internal_errors"))
+        if st == "rejected":
+            res.observe("parser_error_classes", rep["cls"])
+        res.count("renders", rep["renders"])
+        res.count("renders_optimisation_mode", rep["renders_opt"])
+        for pr in rep["problems"]:
+            res.violation(pr["key"], pr["what"] + f" (origin {origin})", {"input": text[:4000], "origin": origin, "traceback": pr["traceback"]})
+        return st == "accepted"
 
     if ctx.replay is not None:
-        text = ctx.replay["witness"]["input"]
-        proto = run_one(text, "replay")
-        if proto is not None:
-            render_all(proto, text, "replay")
+        run_one(ctx.replay["witness"]["input"], "replay", True)
+        ex.close()
         return
     k = 0
     rng = ctx.rng("fuzz")
@@ -244,10 +262,10 @@ def worker(ctx):
             text, origin = structured(rng), "structured"
         else:
             text, origin = "".join(base), "valid"
-        proto = run_one(text, origin)
-        if proto is not None and (origin != "valid" or rng.random() < 0.3) and accepted_rendered < n_inputs // 6:
+        want_render = (origin != "valid" or rng.random() < 0.3) and accepted_rendered < n_inputs // 6
+        if run_one(text, origin, want_render) and want_render:
             accepted_rendered += 1
-            render_all(proto, text, origin)
+    ex.close()
     if not ctx.quick:
         atheris_tier(ctx, workdir, seeds, 1200)
     # CLI: a traceback must never reach stderr (sample)
@@ -318,8 +336,7 @@ if __name__ == "__main__":
               "odd widths, huge numbers, bad escapes, unterminated strings, division by zero; character-level mutations of the same texts (valid "
               "Unicode text only); random token strings; truncation at every kind of token boundary; hostile structured shapes (400-component dotted "
               "names, 120-deep message nesting, 400-deep parentheses, 2000-term expressions, 5000-digit numbers, 300-field messages, empty/500-member "
-              "enums, alias chains); every accepted text is rendered for c, go, py and (when traditional) c -O, go -O; a 20 s CPU-time alarm per input (twice "
-              "before a hang is reported); the real CLI is sampled for tracebacks; an evaluation = one input text; distinct_nontrivial counts accepted "
+              "enums, alias chains); every accepted text is rendered for c, go, py and (when traditional) c -O, go -O; the parser runs in an executor child process watched from outside: 20 s of CPU time on one input, twice, is a hang; the real CLI is sampled for tracebacks; an evaluation = one input text; distinct_nontrivial counts accepted "
               "inputs that were rendered plus distinct parser error classes provoked"),
         assumptions=["inputs are Python str (decodable text); an import of a missing file is an OSError and allowed",
                      "coverage-guided fuzzing (atheris) runs only in the thorough tier"],
